@@ -216,7 +216,7 @@ class PosInterp:
 
     # -- calls -----------------------------------------------------------------------
     def call_function(self, fn: FuncInfo, args: list, kwargs: dict) -> Any:
-        if fn.module is not self.mod and fn.cls is None and fn.parent is None and fn.module is not None and self._foreign_ok:
+        if fn.module is not self.mod and (fn.cls is None or self._foreign_methods) and fn.parent is None and fn.module is not None and self._foreign_ok:
             # a module-level function of another module: its globals are those of its own module for the duration of the call
             prev = (self.mod, self.funcs)
             self.mod = fn.module
@@ -228,6 +228,7 @@ class PosInterp:
         return self._call_function(fn, args, kwargs)
 
     _foreign_ok = True
+    _foreign_methods = False          # clients that call methods of classes of other modules by their own lookup switch this on
 
     def _call_function(self, fn: FuncInfo, args: list, kwargs: dict) -> Any:
         a = fn.node.args
